@@ -21,6 +21,7 @@ type target interface {
 	world
 	server() any
 	observe() string   // full observable state (engine, files, dependency call count)
+	invalidate()       // the server is about to be called: forget cached observations
 	effects() *callLog // calls received by the recording dependencies
 	allowed() [][]byte // keys authorised by configuration
 }
@@ -29,7 +30,14 @@ func (f *storageFix) server() any       { return f.srv }
 func (f *storageFix) effects() *callLog { return &f.fakes.log }
 func (f *storageFix) allowed() [][]byte { return storageAllowed() }
 func (f *storageFix) observe() string {
-	return fmt.Sprintf("%s\ncalls=%d", f.engineState(), f.fakes.log.n())
+	return fmt.Sprintf("%s\ncalls=%d", f.cachedEngineState(), f.fakes.log.n())
+}
+func (f *storageFix) invalidate() { f.cacheValid = false }
+func (f *storageFix) cachedEngineState() string {
+	if !f.cacheValid {
+		f.cache, f.cacheValid = f.engineState(), true
+	}
+	return f.cache
 }
 
 // ---------------------------------------------------------------- tamper modes
@@ -259,6 +267,7 @@ func runCase(t fataler, svc *service, pristine, live target, c tcase, strict boo
 	if !out.authorised {
 		before := pristine.observe()
 		calls := pristine.effects().n()
+		pristine.invalidate()
 		res := m.invoke(pristine.server(), req)
 		if res.panicked != nil {
 			t.Fatalf("%s: unauthorised request made the handler panic\ncase: %v (%s)\nresult: %v", svc.name, c, note, res)
@@ -296,6 +305,7 @@ func runCase(t fataler, svc *service, pristine, live target, c tcase, strict boo
 		ev.Inconclusive("C32 harness bug: twin of %v is not authorised by the reference predicate", c)
 	}
 	before := live.observe()
+	live.invalidate()
 	res := m.invoke(live.server(), treq)
 	out.twinCode = res.code()
 	if res.code() == codes.PermissionDenied {
@@ -337,16 +347,19 @@ func (o outcome) labels(c tcase) []string {
 
 // ---------------------------------------------------------------- storage node
 
-// liveStorage keeps a twin of the pristine fixture and replaces it whenever an
-// authorised request changed the engine, so that "what would this body do"
-// is always judged against the same initial state.
+// liveStorage holds a storage fixture and replaces it whenever its engine left
+// the initial state. The live twin is replaced after every authorised request
+// that changed something, so that "what would this body do" is always judged
+// against the same initial state. The pristine one never needs it while the
+// property holds; after a violation it makes the following (shrinking) cases
+// independent of the damage.
 type liveStorage struct {
 	*storageFix
 	rebuilt int
 }
 
 func (l *liveStorage) refresh() {
-	if l.storageFix.engineState() == l.storageFix.pristine {
+	if l.storageFix.cachedEngineState() == l.storageFix.pristine {
 		return
 	}
 	l.storageFix.close()
@@ -359,8 +372,8 @@ func TestC32Storage(t *testing.T) {
 	defer rec.Flush()
 	svc := storageService()
 	rec.Set("storage_methods", len(svc.methods))
-	pristine := newStorageFix(true)
-	defer pristine.close()
+	pristine := &liveStorage{storageFix: newStorageFix(true)}
+	defer func() { pristine.close() }()
 	live := &liveStorage{storageFix: newStorageFix(true)}
 	defer func() { live.close() }()
 	gen := genCase(svc)
@@ -370,6 +383,7 @@ func TestC32Storage(t *testing.T) {
 		defer func() {
 			rec.Case(out.twinExecuted, c.String(), out.labels(c)...)
 			live.refresh()
+			pristine.refresh()
 		}()
 		if rec.WantSample() {
 			rec.Sample(c.String())
@@ -377,6 +391,7 @@ func TestC32Storage(t *testing.T) {
 		out = runCase(t, svc, pristine, live, c, true)
 	})
 	rec.Set("storage_live_rebuilds", live.rebuilt)
+	rec.Set("storage_pristine_rebuilds", pristine.rebuilt)
 }
 
 // TestC32StorageNotReady: before MarkReady nothing but health checks is served;
@@ -443,11 +458,12 @@ func TestC32Matrix(t *testing.T) {
 		}
 	}
 	ssvc := storageService()
-	sp := newStorageFix(true)
-	defer sp.close()
+	sp := &liveStorage{storageFix: newStorageFix(true)}
+	defer func() { sp.close() }()
 	sl := &liveStorage{storageFix: newStorageFix(true)}
 	defer func() { sl.close() }()
-	run(ssvc, sp, sl, sl.refresh)
+	run(ssvc, sp, sl, func() { sl.refresh(); sp.refresh() })
+	rec.Set("matrix_pristine_rebuilds", sp.rebuilt)
 	isvc := irService()
 	run(isvc, newIRFix(), newIRFix(), func() {})
 	rec.Set("exhaustive", true)
